@@ -26,6 +26,7 @@
 #include "cmd_ftoa.h"
 #include "cmd_memcmp.h"
 #include "cmd_number.h"
+#include "cmd_ondemand.h"
 #include "cmd_parse.h"
 #include "cmd_pool.h"
 #include "cmd_quote.h"
@@ -48,6 +49,8 @@ int main(int argc, char** argv) {
       cmd_ftoa(tok, out);
     } else if (tok[0] == "atof" || tok[0].compare(0, 5, "prim-") == 0) {
       vnum::cmd(tok, out);
+    } else if (tok[0] == "ondemand" || tok[0] == "pod") {
+      vod::cmd(tok, out);
     } else if (tok[0] == "memcmp") {
       cmd_memcmp(tok, out);
     } else if (tok[0] == "quote") {
